@@ -142,6 +142,9 @@ std::string show_df(const dataframe &d)
     for (const auto &v : e.input) out += show(v) + ",";
     out += ";";
   }
+  // the frame's own consistency check (label() may throw)
+  try { out += d.is_valid() ? " VALID=1" : " VALID=0"; }
+  catch (const std::bad_variant_access &) { out += " VALID=X"; }
   return out;
 }
 
